@@ -183,6 +183,10 @@ def construction_sites(prog):
                     r = prog.resolve_static(mod, n.func)
                     if r is None and isinstance(n.func, ast.Attribute) and isinstance(n.func.value, ast.Name) and n.func.value.id in ("pdf",):
                         r = ("class", n.func.attr) if n.func.attr in prog.classes else None
+                    if r is None and isinstance(n.func, ast.Call) and isinstance(n.func.func, ast.Name) and n.func.func.id == "type" \
+                            and {k.arg for k in n.keywords} & {"Sigma", "mu", "Lambda"}:
+                        # type(operand)(Sigma=..., mu=...): the class follows an operand (may be a density class)
+                        r = ("class", "GaussianPDF")
                     if r and r[0] == "class" and r[1] in DENSITY_CLASSES:
                         kws = tuple(sorted(k.arg for k in n.keywords if k.arg))
                         sites.append((mod, prog.qualname_at(mod, n.lineno), fn.name, kws, n.lineno))
@@ -313,6 +317,8 @@ def obligations(tier):
     obs.append(linalg_ob("invert_diagonal"))
     from .common import logdomain_ob
     obs.append(logdomain_ob(prog, "linalg"))
+    from .common import no_narrowing_ob
+    obs.append(no_narrowing_ob(prog, "linalg"))
     for mk in ("cold", "warm", "diag"):
         obs.append(normalize_ob(mk))
     for args in ("Sigma", "Sigma+Lambda", "full"):
@@ -331,7 +337,7 @@ def obligations(tier):
     return obs
 
 
-FLOORS = {"group:mass": 24, "group:linalg": 3, "group:normalize": 3, "group:ctor": 4, "group:site": 18, "group:after": 230}
+FLOORS = {"group:mass": 24, "group:linalg": 4, "group:normalize": 3, "group:ctor": 4, "group:site": 18, "group:after": 230}
 LEVEL = "proof"
 EXPLANATION = ("Closed-form mass (compute_lnZ / log_integral* / integral* / integrate('1')), utils/linalg.py against its summary, normalisation, "
                "every density constructor argument combination, and a who-may-construct scan: every library site constructing a GaussianPDF "
